@@ -646,13 +646,14 @@ Proof.
 Qed.
 
 Lemma consume_quote_safe s : SInv s ->
-  safe (consume_quote text s) (fun '(q, s') => Ext s s' /\ ascii q = true).
+  safe (consume_quote text s) (fun '(q, s') => Ext s s' /\ ascii q = true /\ s_pos s < s_pos s').
 Proof.
   intros Hs. unfold consume_quote.
   eapply safe_bind; [apply curr_byte_safe; apply Hs|]. intros x (r & Hr & Hlt). cbv beta.
   destruct ((x =? 39) || (x =? 34)) eqn:E; [|apply err_at_safe; auto].
   assert (Hx : ascii x = true) by (unfold ascii; lia).
-  eapply safe_bind; [eapply advance1_safe; eauto|]. intros s1 H1. cbn. auto.
+  eapply safe_bind_eq; [eapply advance1_safe; eauto|]. intros s1 Ea H1. cbn.
+  apply advance_pos in Ea as [Ea _]. repeat split; auto; try apply H1. lia.
 Qed.
 
 (* ---- is_xml_str ---- *)
